@@ -320,6 +320,12 @@ def rule_flat(ctx):
                 return True
             if isinstance(e, ast.Call) and (dotted(e.func) or "").split(".")[-1] in ("abs", "absolute", "fabs", "asarray", "float64", "astype") and e.args:
                 return is_flat(e.args[0], at, depth + 1)
+            if isinstance(e, ast.BinOp):
+                # element-wise arithmetic of flat arrays (and numbers) is flat
+                sides = [x_ for x_ in (e.left, e.right) if not isinstance(x_, ast.Constant)]
+                return bool(sides) and all(is_flat(x_, at, depth + 1) for x_ in sides)
+            if isinstance(e, ast.UnaryOp):
+                return is_flat(e.operand, at, depth + 1)
             if isinstance(e, ast.Name):
                 ds = flow.defs(e.id, at)
                 if not ds or "param" in ds:
